@@ -27,7 +27,7 @@ global layout CacheMetaData is size == 24, align == 8;
 impl CacheMetaData {
 //@fn cache/cache.rs | impl CacheMetaData | new | ret=r | safety=C10
     ensures
-        r.timestamp == 0 && r.cas == cas && r.flags == flags && r.time_to_live == time_to_live, // @ob C01,C05,C07 meta.new.fields
+        r.timestamp == 0 && r.cas == cas && r.flags == flags && r.time_to_live == time_to_live, // @ob C01,C05,C07,C02,C06 meta.new.fields
 //@endfn
 //@fn cache/cache.rs | impl CacheMetaData | get_expiration | ret=r | safety=C10
     ensures
@@ -42,7 +42,7 @@ impl CacheMetaData {
 impl Record {
 //@fn cache/cache.rs | impl Record | new | ret=r | safety=C10
     ensures
-        r.value@ == value@ && r.header.cas == cas && r.header.flags == flags && r.header.time_to_live == expiration && r.header.timestamp == 0, // @ob C01,C05,C06 record.new.fields
+        r.value@ == value@ && r.header.cas == cas && r.header.flags == flags && r.header.time_to_live == expiration && r.header.timestamp == 0, // @ob C01,C05,C06,C02,C07 record.new.fields
 //@endfn
 //@fn cache/cache.rs | impl Record | len | ret=r | safety=C10,C14
     ensures
@@ -75,7 +75,7 @@ pub trait CacheImplDetails {
         ensures
             final(self).inv() && final(self).cview() == old(self).cview() && final(self).now() == old(self).now() && final(self).cas_next() == old(self).cas_next(), // @ob C01 get_by_key.frame
             r is Ok <==> old(self).cview().contains_key(key@), // @ob C01 get_by_key.present_iff
-            r is Ok ==> same_item(item_of(r->Ok_0), old(self).cview()[key@]) && r->Ok_0.header.timestamp <= old(self).now(), // @ob C01,C02 get_by_key.returns_stored
+            r is Ok ==> same_item(item_of(r->Ok_0), old(self).cview()[key@]) && r->Ok_0.header.timestamp <= old(self).now(), // @ob C01,C02,C05 get_by_key.returns_stored
             r is Err ==> r->Err_0 == CacheError::NotFound; // @ob C01 get_by_key.not_found
 
     fn check_if_expired(&mut self, key: &KeyType, record: &Record) -> (r: bool)
@@ -217,7 +217,7 @@ impl MemoryStore {
         ms_inv(*final(self)) && final(self).timer == old(self).timer && final(self).cas_id == old(self).cas_id, // @ob C08 store.flush.frame
         post_flush(old(self).memory@, old(self).timer.now(), header.time_to_live, final(self).memory@), // @ob C05,C08 store.flush.post_flush
 //@closure 0 | |_key: &KeyType, mut value: Record| -> (w: Record)
-                ensures w.value@ == value.value@ && w.header.flags == value.header.flags && w.header.cas == value.header.cas && w.header.timestamp == value.header.timestamp, // @ob C08 store.flush.closure_keeps_item
+                ensures w.value@ == value.value@ && w.header.flags == value.header.flags && w.header.cas == value.header.cas && w.header.timestamp == value.header.timestamp, // @ob C08,C05 store.flush.closure_keeps_item
                         w.header.time_to_live != 0 && w.header.time_to_live <= header.time_to_live, // @ob C08 store.flush.closure_deadline
                         value.header.time_to_live != 0 ==> w.header.time_to_live <= value.header.time_to_live, // @ob C05 store.flush.closure_never_prolongs
 //@endfn
@@ -334,7 +334,7 @@ pub mod store {
             mc_inv(*old(self)),
         ensures
             mc_frame(*old(self), *final(self)) && mc_cas(*final(self)) == mc_cas(*old(self)), // @ob C01 memc.get.frame
-            post_get(old(self).store.memory@, mc_now(*old(self)), key@, r, final(self).store.memory@), // @ob C01,C05 memc.get.lookup_exact
+            post_get(old(self).store.memory@, mc_now(*old(self)), key@, r, final(self).store.memory@), // @ob C01,C05,C02 memc.get.lookup_exact
 //@endfn
 
 //@fn memcache/store.rs | impl MemcStore | add | ret=r | mutself | safety=C10,C06
@@ -342,7 +342,7 @@ pub mod store {
             mc_inv(*old(self)), mc_room(*old(self)),
         ensures
             mc_frame(*old(self), *final(self)), // @ob C06 memc.add.frame
-            post_add(old(self).store.memory@, old(self).store.cas_id.val(), mc_now(*old(self)), key@, record, r, final(self).store.memory@, final(self).store.cas_id.val()), // @ob C06,C05 memc.add.post_add
+            post_add(old(self).store.memory@, old(self).store.cas_id.val(), mc_now(*old(self)), key@, record, r, final(self).store.memory@, final(self).store.cas_id.val()), // @ob C06,C05,C02 memc.add.post_add
 //@endfn
 
 //@fn memcache/store.rs | impl MemcStore | replace | ret=r | mutself | safety=C10,C06
@@ -493,7 +493,7 @@ pub mod handler {
 
 //@fn memcache_server/handler.rs | - | into_record_meta | ret=r | safety=C10
         ensures
-            r.cas == request_header.cas && r.flags == request_header.opaque && r.time_to_live == expiration && r.timestamp == 0, // @ob C02,C07,C08 into_record_meta.fields
+            r.cas == request_header.cas && r.flags == request_header.opaque && r.time_to_live == expiration && r.timestamp == 0, // @ob C02,C07,C08,C01,C05,C06 into_record_meta.fields
 //@endfn
 
 //@fn memcache_server/handler.rs | - | into_quiet_get | ret=r | safety=C10,C12
@@ -529,7 +529,7 @@ pub mod handler {
         ensures
             store::mc_frame(old(self).storage, final(self).storage), // @ob C06 handler.add_replace.frame
             *final(response_header) == resp_header(r), // @ob C11 handler.add_replace.header_out
-            loud_post(if request.header.opcode == 0x02 || request.header.opcode == 0x12 { Base::Add } else { Base::Replace }, payload(rv_set(RK::Set, request)), *old(response_header), old(self).storage, final(self).storage, r), // @ob C06,C02,C11,C19 handler.add_replace.loud_post
+            loud_post(if request.header.opcode == 0x02 || request.header.opcode == 0x12 { Base::Add } else { Base::Replace }, payload(rv_set(RK::Set, request)), *old(response_header), old(self).storage, final(self).storage, r), // @ob C06,C02,C11,C19,C05 handler.add_replace.loud_post
 //@endfn
 
 //@fn memcache_server/handler.rs | impl BinaryHandler | is_add_command | ret=r | safety=C10
@@ -543,7 +543,7 @@ pub mod handler {
         ensures
             store::mc_frame(old(self).storage, final(self).storage), // @ob C06 handler.append_prepend.frame
             *final(response_header) == resp_header(r), // @ob C11 handler.append_prepend.header_out
-            loud_post(if append_req.header.opcode == 0x0e || append_req.header.opcode == 0x19 { Base::Append } else { Base::Prepend }, payload(rv_app(RK::Append, append_req)), *old(response_header), old(self).storage, final(self).storage, r), // @ob C06,C02,C11,C19 handler.append_prepend.loud_post
+            loud_post(if append_req.header.opcode == 0x0e || append_req.header.opcode == 0x19 { Base::Append } else { Base::Prepend }, payload(rv_app(RK::Append, append_req)), *old(response_header), old(self).storage, final(self).storage, r), // @ob C06,C02,C11,C19,C05 handler.append_prepend.loud_post
 //@endfn
 
 //@fn memcache_server/handler.rs | impl BinaryHandler | is_append | ret=r | safety=C10
@@ -557,7 +557,7 @@ pub mod handler {
         ensures
             store::mc_frame(old(self).storage, final(self).storage), // @ob C01 handler.set.frame
             *final(response_header) == resp_header(r), // @ob C11 handler.set.header_out
-            loud_post(Base::Set, payload(rv_set(RK::Set, set_req)), *old(response_header), old(self).storage, final(self).storage, r), // @ob C01,C02,C11,C19 handler.set.loud_post
+            loud_post(Base::Set, payload(rv_set(RK::Set, set_req)), *old(response_header), old(self).storage, final(self).storage, r), // @ob C01,C02,C11,C19,C05 handler.set.loud_post
 //@endfn
 
 //@fn memcache_server/handler.rs | impl BinaryHandler | delete | ret=r | mutself | safety=C10,C08
@@ -598,7 +598,7 @@ pub mod handler {
         ensures
             store::mc_frame(old(self).storage, final(self).storage), // @ob C07 handler.increment.frame
             *final(response_header) == resp_header(r), // @ob C11 handler.increment.header_out
-            loud_post(Base::Incr, payload(rv_inc(RK::Increment, inc_request)), *old(response_header), old(self).storage, final(self).storage, r), // @ob C07,C02,C11,C19 handler.increment.loud_post
+            loud_post(Base::Incr, payload(rv_inc(RK::Increment, inc_request)), *old(response_header), old(self).storage, final(self).storage, r), // @ob C07,C02,C11,C19,C05 handler.increment.loud_post
 //@endfn
 
 //@fn memcache_server/handler.rs | impl BinaryHandler | decrement | ret=r | mutself | safety=C10,C07
@@ -607,7 +607,7 @@ pub mod handler {
         ensures
             store::mc_frame(old(self).storage, final(self).storage), // @ob C07 handler.decrement.frame
             *final(response_header) == resp_header(r), // @ob C11 handler.decrement.header_out
-            loud_post(Base::Decr, payload(rv_inc(RK::Decrement, dec_request)), *old(response_header), old(self).storage, final(self).storage, r), // @ob C07,C02,C11,C19 handler.decrement.loud_post
+            loud_post(Base::Decr, payload(rv_inc(RK::Decrement, dec_request)), *old(response_header), old(self).storage, final(self).storage, r), // @ob C07,C02,C11,C19,C05 handler.decrement.loud_post
 //@endfn
     }
 //@closed memcache_server/handler.rs | impl BinaryHandler
@@ -658,7 +658,7 @@ pub mod binary_connection {
             conn_inv(*final(self)) || r is Err, // @ob C09 read_frame.inv
             conn_limit(*final(self)) == conn_limit(*old(self)), // @ob C13 read_frame.limit_kept
             final(self).stream.sent() == old(self).stream.sent() && final(self).stream.shut() == old(self).stream.shut(), // @ob C12 read_frame.writes_nothing
-            rf_post(stream_of(*old(self)), conn_limit(*old(self)), r, stream_of(*final(self))), // @ob C09,C13,C18 read_frame.rf_post
+            rf_post(stream_of(*old(self)), conn_limit(*old(self)), r, stream_of(*final(self))), // @ob C09,C13,C18,C12 read_frame.rf_post
 //@loop 0
                 invariant
                     conn_inv(*self), !self.stream.shut(), !old(self).stream.shut(),
@@ -963,7 +963,7 @@ pub mod random_policy {
             rp_inv(*old(self)),
         ensures
             rp_frame(*old(self), *final(self)), // @ob C15 policy.flush.frame
-            post_flush(old(self).store.memory@, old(self).store.timer.now(), header.time_to_live, final(self).store.memory@), // @ob C08 policy.flush.post_flush
+            post_flush(old(self).store.memory@, old(self).store.timer.now(), header.time_to_live, final(self).store.memory@), // @ob C08,C05 policy.flush.post_flush
             // C15: "returns to its initial value whenever the store returns to empty"
             header.time_to_live == 0 ==> usage(*final(self)) == 0, // @ob C15 policy.flush.now_resets_accounting
             header.time_to_live != 0 ==> usage(*final(self)) == usage(*old(self)), // @ob C15 policy.flush.delayed_unchanged
